@@ -763,3 +763,310 @@ func mapListsComplete(p *Prog, r *Reporter) {
 		r.Anchor("generic.MapN: a component list built in place")
 	}
 }
+
+// ====================== rules for the defects found by the bug-hunting round (DESIGN §3: N1–N7) ======================
+
+// noNarrowParamSums: in methods of Query, a sum that involves a parameter is computed in at least 64 bits: a uint32 sum
+// of the current row and a caller-supplied step wraps around, so a step beyond the end lands on an entity again.
+func noNarrowParamSums(p *Prog, r *Reporter) {
+	n := 0
+	for _, fn := range p.Funcs {
+		if fn.Pkg == nil || fn.Pkg.Pkg.Name() != "ecs" || typeName(recvType(fn)) != "Query" || fn.Blocks == nil {
+			continue
+		}
+		for _, b := range fn.Blocks {
+			for _, ins := range b.Instrs {
+				bo, ok := ins.(*ssa.BinOp)
+				if !ok || bo.Op != token.ADD {
+					continue
+				}
+				var par *ssa.Parameter
+				for _, op := range []ssa.Value{bo.X, bo.Y} {
+					// a widening conversion of a parameter is the parameter; a narrowing one is the subject of C03.R16
+					v := op
+					if cv, ok := v.(*ssa.Convert); ok {
+						if ft, ok1 := cv.X.Type().Underlying().(*types.Basic); ok1 {
+							if tt, ok2 := cv.Type().Underlying().(*types.Basic); ok2 && intWidth(tt) >= intWidth(ft) {
+								v = cv.X
+							}
+						}
+					}
+					if pr, ok := v.(*ssa.Parameter); ok {
+						if bt, ok := pr.Type().Underlying().(*types.Basic); ok && bt.Info()&types.IsInteger != 0 {
+							par = pr
+						}
+					}
+				}
+				if par == nil {
+					continue
+				}
+				n++
+				bt, _ := bo.Type().Underlying().(*types.Basic)
+				wide := bt != nil && (bt.Kind() == types.Uint64 || bt.Kind() == types.Int64 || bt.Kind() == types.Int || bt.Kind() == types.Uint || bt.Kind() == types.Uintptr)
+				r.Check(wide, p.FuncName(fn), fmt.Sprintf("sum with parameter %s", par.Name()), p.Pos(bo.Pos()), "a sum involving a caller-supplied value is computed in at least 64 bits (here: "+bo.Type().String()+"); a 32-bit sum wraps around and a step beyond the end lands on an entity again instead of exhausting the query")
+			}
+		}
+	}
+	if n == 0 {
+		r.Anchor("a Query method adding a parameter to a position")
+	}
+}
+
+// sameTargetSkipChecked: a function that skips work because a table's relation target already equals the requested target
+// has applied the relation check (flag and id) to that table before: otherwise a missing or non-relation component is
+// accepted silently whenever the targets happen to agree (the zero target for tables without any relation).
+func sameTargetSkipChecked(p *Prog, r *Reporter) {
+	n := 0
+	for _, fn := range p.Funcs {
+		if fn.Pkg == nil || fn.Pkg.Pkg.Name() != "ecs" || fn.Blocks == nil {
+			continue
+		}
+		hasComp := false
+		var target *ssa.Parameter
+		for _, pr := range fn.Params {
+			if typeName(pr.Type()) == "ID" {
+				hasComp = true
+			}
+			if isEntityType(pr.Type()) && pr.Name() != "entity" {
+				target = pr
+			}
+		}
+		if !hasComp || target == nil {
+			continue
+		}
+		for _, b := range fn.Blocks {
+			iff, ok := b.Instrs[len(b.Instrs)-1].(*ssa.If)
+			if !ok {
+				continue
+			}
+			atom, _ := condAtom(iff.Cond)
+			bo, ok := atom.(*ssa.BinOp)
+			if !ok || (bo.Op != token.EQL && bo.Op != token.NEQ) {
+				continue
+			}
+			var tv ssa.Value
+			switch {
+			case bo.X == ssa.Value(target):
+				tv = bo.Y
+			case bo.Y == ssa.Value(target):
+				tv = bo.X
+			default:
+				continue
+			}
+			_, fld, base, ok := loadedField(tv)
+			if !ok || fld != "RelationTarget" {
+				continue
+			}
+			n++
+			okc, _ := relationChecked(p, fn, iff, base)
+			construct := fmt.Sprintf("same-target shortcut #%d on %s", n, base)
+			if okc {
+				r.OK(p.FuncName(fn), construct, p.Pos(iff.Pos()), "the relation check of the same table dominates the comparison")
+			} else {
+				r.Bad(p.FuncName(fn), construct, p.Pos(iff.Pos()), "the table's target is compared with the requested target, and the work skipped if they agree, before the relation check (flag and id) of that table: a missing or non-relation component is accepted silently whenever the targets agree")
+			}
+		}
+	}
+	if n == 0 {
+		r.Anchor("a same-target shortcut (table.RelationTarget == target)")
+	}
+}
+
+// offsetsInPointerWidth: the offset handed to unsafe.Add is never a 32-bit product: itemSize*index wraps at 4 GiB per
+// column and distinct rows then share storage.
+func offsetsInPointerWidth(p *Prog, r *Reporter) {
+	n := 0
+	for _, fn := range p.Funcs {
+		if fn.Pkg == nil || fn.Pkg.Pkg.Name() != "ecs" || fn.Blocks == nil {
+			continue
+		}
+		for _, site := range callsIn(fn) {
+			bi, ok := site.Common().Value.(*ssa.Builtin)
+			if !ok || bi.Name() != "Add" || len(site.Common().Args) != 2 {
+				continue
+			}
+			// the offset: look through conversions for a product
+			v := site.Common().Args[1]
+			var mul *ssa.BinOp
+			for d := 0; d < 4 && mul == nil; d++ {
+				switch x := v.(type) {
+				case *ssa.BinOp:
+					if x.Op == token.MUL {
+						mul = x
+					}
+					d = 4
+				case *ssa.Convert:
+					v = x.X
+				case *ssa.ChangeType:
+					v = x.X
+				default:
+					d = 4
+				}
+			}
+			if mul == nil {
+				continue
+			}
+			// a product of a constant (or a small fixed size) and an 8-bit id cannot reach 2^32
+			small := func(v ssa.Value) bool {
+				if bt, ok := stripConvs(v).Type().Underlying().(*types.Basic); ok && (bt.Kind() == types.Uint8 || bt.Kind() == types.Int8) {
+					return true
+				}
+				return false
+			}
+			if small(mul.X) || small(mul.Y) {
+				continue
+			}
+			if _, isC := mul.X.(*ssa.Const); isC {
+				if _, isC2 := mul.Y.(*ssa.Const); isC2 {
+					continue
+				}
+			}
+			n++
+			bt, _ := mul.Type().Underlying().(*types.Basic)
+			wide := bt != nil && (bt.Kind() == types.Uintptr || bt.Kind() == types.Int || bt.Kind() == types.Uint || bt.Kind() == types.Int64 || bt.Kind() == types.Uint64)
+			r.Check(wide, p.FuncName(fn), fmt.Sprintf("offset product #%d", n), p.Pos(mul.Pos()), "the product handed to unsafe.Add is computed in pointer width (here: "+mul.Type().String()+"); a 32-bit product wraps at 4 GiB and distinct rows share storage")
+		}
+	}
+	if n == 0 {
+		r.Anchor("an unsafe.Add with a size*index offset")
+	}
+}
+
+// freshRelationFilterPerCall: generic FilterN.Filter hands out, for a per-call target, a relation filter that belongs to that
+// call: it never stores the parameter-supplied target into a struct reachable from the receiver and returns that struct.
+func freshRelationFilterPerCall(p *Prog, r *Reporter) {
+	n := 0
+	for _, fn := range p.Funcs {
+		if fn.Pkg == nil || fn.Pkg.Pkg.Name() != "generic" || fn.Blocks == nil || cname(fn) != "Filter" || fn.Signature.Recv() == nil || !fn.Signature.Variadic() {
+			continue
+		}
+		last := fn.Params[len(fn.Params)-1]
+		sl, ok := last.Type().Underlying().(*types.Slice)
+		if !ok || !isEntityType(sl.Elem()) {
+			continue
+		}
+		n++
+		bad := token.NoPos
+		for _, b := range fn.Blocks {
+			for _, ins := range b.Instrs {
+				st, ok := ins.(*ssa.Store)
+				if !ok || !isEntityType(st.Val.Type()) {
+					continue
+				}
+				// value: target[0]
+				u, ok := st.Val.(*ssa.UnOp)
+				if !ok || u.Op != token.MUL {
+					continue
+				}
+				ia, ok := u.X.(*ssa.IndexAddr)
+				if !ok || ia.X != ssa.Value(last) {
+					continue
+				}
+				// address: rooted in the receiver (a field chain over fn.Params[0]) rather than in a fresh allocation
+				a := st.Addr
+				for {
+					if fa, ok := a.(*ssa.FieldAddr); ok {
+						a = fa.X
+						continue
+					}
+					break
+				}
+				if a == ssa.Value(fn.Params[0]) {
+					bad = st.Pos()
+				}
+				if ul, ok := a.(*ssa.UnOp); ok && ul.Op == token.MUL {
+					bad = st.Pos() // through a pointer loaded from somewhere: shared as well
+				}
+			}
+		}
+		if bad == token.NoPos {
+			r.OK(p.FuncName(fn), "per-call target", p.FnPos(fn), "the target given to this call is stored only in a filter allocated by this call")
+		} else {
+			r.Bad(p.FuncName(fn), "per-call target", p.Pos(bad), "the target given to this call is written into a struct owned by the generic filter, which is handed out by every call: a later call re-targets the filters and open queries handed out earlier")
+		}
+	}
+	if n == 0 {
+		r.Anchor("generic FilterN.Filter with a variadic target")
+	}
+}
+
+// compileKeyedByWorld: the generic filter's compilation is valid for one world only (component ids are per world): every
+// return of Compile that comes before the compilation (the "already compiled" early exit) is taken only where the world
+// argument was compared equal to the world recorded at the last compilation, or the filter is registered (locked).
+func compileKeyedByWorld(p *Prog, r *Reporter) {
+	fn := p.Fn("generic.(*compiledQuery).Compile")
+	if fn == nil {
+		r.Anchor("generic.(*compiledQuery).Compile")
+		return
+	}
+	var w *ssa.Parameter
+	for _, pr := range fn.Params {
+		if typeName(pr.Type()) == "World" {
+			w = pr
+		}
+	}
+	if w == nil {
+		r.Anchor("Compile: a *World parameter")
+		return
+	}
+	mf := &MustFlow{Fn: fn, EdgeGen: func(b *ssa.BasicBlock, k int) bool {
+		atom, holds, ok := edgeCond(b, k)
+		if !ok {
+			return false
+		}
+		if bo, ok := atom.(*ssa.BinOp); ok && (bo.Op == token.EQL && holds || bo.Op == token.NEQ && !holds) {
+			if bo.X == ssa.Value(w) || bo.Y == ssa.Value(w) {
+				return true
+			}
+		}
+		if _, f, _, ok := loadedField(atom); ok && f == "locked" && holds {
+			return true
+		}
+		return false
+	}}
+	mf.Run()
+	// early returns: returns not preceded (dominated) by a store to the compiled flag
+	var flagStores []*ssa.BasicBlock
+	for _, b := range fn.Blocks {
+		for _, ins := range b.Instrs {
+			if st, ok := ins.(*ssa.Store); ok {
+				if _, f, _, ok := loadedField(st.Addr); ok && f == "compiled" {
+					flagStores = append(flagStores, b)
+				}
+			}
+		}
+	}
+	n := 0
+	for _, b := range fn.Blocks {
+		ret, ok := b.Instrs[len(b.Instrs)-1].(*ssa.Return)
+		if !ok {
+			continue
+		}
+		late := false
+		for _, sb := range flagStores {
+			if sb == b || dominatesBlock(sb, b) {
+				late = true
+			}
+		}
+		if late {
+			continue
+		}
+		n++
+		r.Check(mf.Before(ret), p.FuncName(fn), fmt.Sprintf("early return #%d", n), p.Pos(ret.Pos()), "the compilation is re-used only for the world it was made for (or for a registered filter): component ids differ between worlds that registered their types in a different order")
+	}
+	if n == 0 {
+		r.Anchor("Compile: an early return for an already compiled filter")
+	}
+}
+
+func intWidth(bt *types.Basic) int {
+	switch bt.Kind() {
+	case types.Int8, types.Uint8:
+		return 8
+	case types.Int16, types.Uint16:
+		return 16
+	case types.Int32, types.Uint32:
+		return 32
+	}
+	return 64
+}
